@@ -28,6 +28,13 @@ import (
 	context_manager "lunar/toolkit-core/context-manager"
 )
 
+// what the strategy uses when a field is not configured (quota.type.go: defaultRequestExpiration, defaultGCInterval);
+// the model takes the same values from the regenerated constants
+const (
+	defaultExpSec = 60
+	defaultGCSec  = 30
+)
+
 const (
 	host    = "c02.test"
 	procDir = "proxy/src/services/lunar-engine/streams/processors/registry"
@@ -37,14 +44,16 @@ const (
 type qspec struct {
 	conc   bool
 	max    int64
-	expSec int64
+	expSec int64  // effective value (the strategy's default when not configured)
+	expSet bool   // request_expiration_sec is written into the quota file
 	parent int    // -1 = root
 	flt    string // own filter: "" (host/*), "mG" / "mP" (method GET / POST only), "py" (url host/y), "h" (header x-c02: 1)
 }
 
 type caseCfg struct {
 	t0     int64 // ns
-	gcSec  int64
+	gcSec  int64 // effective value (the strategy's default when not configured)
+	gcSet  bool  // gc_interval_sec is written into the quota files
 	quotas []qspec
 	order  []int // user flow: Limiter chain in this order
 	early  bool  // the flow answers POST requests itself after the limiters admitted them
@@ -88,8 +97,13 @@ func quotaYAML(c caseCfg) string {
 	for i, q := range c.quotas {
 		var strat string
 		if q.conc {
-			strat = fmt.Sprintf("      concurrent:\n        max_request_count: %d\n        request_expiration_sec: %d\n        gc_interval_sec: %d\n",
-				q.max, q.expSec, c.gcSec)
+			strat = fmt.Sprintf("      concurrent:\n        max_request_count: %d\n", q.max)
+			if q.expSet {
+				strat += fmt.Sprintf("        request_expiration_sec: %d\n", q.expSec)
+			}
+			if c.gcSet {
+				strat += fmt.Sprintf("        gc_interval_sec: %d\n", c.gcSec)
+			}
 		} else {
 			strat = "      fixed_window:\n        max: 1000000\n        interval: 1\n        interval_unit: day\n"
 		}
